@@ -603,8 +603,8 @@ def kani_playback(pkg, ob, flags, stage_dir, scratch):
     res["generated"] = True
     res["test_name"] = test_name
     res["test_source"] = test_src
-    cmd2 = ["cargo", "kani", "playback", "-Z", "concrete-playback", "-p", pkg, "--target-dir", os.path.join(scratch, "target-playback-" + pkg), "--", test_name]
-    rc2, out2, err2, secs2, to2 = run(cmd2, cwd=stage_dir, timeout=1200)
+    cmd2 = ["cargo", "kani", "playback", "-Z", "concrete-playback", "-p", pkg, "--", test_name]
+    rc2, out2, err2, secs2, to2 = run(cmd2, cwd=stage_dir, timeout=1800, env={"CARGO_TARGET_DIR": os.path.join(scratch, "target-playback-" + pkg)})
     res["playback_cmd"] = " ".join(cmd2)
     res["playback_rc"] = rc2
     res["playback_output_tail"] = (out2 + "\n" + err2)[-3000:]
